@@ -150,62 +150,139 @@ let () =
   List.iter (fun (title, ops) ->
     let cid = (match String.split_on_char ' ' title with _ :: k :: _ -> k | _ -> "?") in
     incr ncase;
-    (* ---------------- model side ---------------- *)
-    let st = ref init in
+    (* ---------------- model side ----------------
+       The model is run as a set of candidate states: timers that fire at the same virtual instant run in goroutines
+       of their own, so when a callback re-enters Express at such an instant the order (which decides whether the
+       re-expressed Interest lands on the old node or on a re-created one) is not defined.  Every admissible order is
+       explored; candidates whose observations differ from the implementation's are dropped; a case diverges when no
+       candidate is left. *)
+    let states = ref [init] in
     let diverged = ref false in
     let kinds = Hashtbl.create 8 in
     let any_cb = ref false in
+    let by_of txt = List.fold_left (fun acc w ->
+        if String.length w > 3 && String.sub w 0 3 = "by=" then int_of_string (String.sub w 3 (String.length w - 3)) else acc)
+        (-1) (String.split_on_char ' ' txt) in
+    let cb_pids (ob : obs list) = List.filter_map (function OCb (p, _) -> Some (int_of_nat p) | _ -> None) ob in
+    let state_key (s : state) =
+      let nodes h = List.init (int_of_nat (hnext h)) (fun i -> hget h (nat_of_int i)) in
+      (now s, nodes (pit s), nodes (fib s), timers s, npid s, inc s, panicked s) in
     List.iteri (fun idx o ->
       let f = String.split_on_char ' ' o.text in
       Hashtbl.replace kinds (List.hd f) ();
       if o.cbs <> [] then any_cb := true;
       if not !diverged then begin
-        let mobs = ref [] in
-        let do_step e = let (s', ob) = step v !st e in st := s'; mobs := !mobs @ ob in
-        let do_nops () = List.iter (fun (txt, _) ->
-          match parse_express (String.split_on_char ' ' txt) with Some e -> do_step e | None -> ()) o.nops in
-        (match f with
-         | "express" :: _ -> (match parse_express f with Some e -> do_step e | None -> ()); do_nops ()
-         | ["data"; nm; dd] -> do_step (EData (name_of_string nm, n_of_int (int_of_string dd))); do_nops ()
-         | ["nack"; nm; r] ->
-             (* the harness writes the full name; a digest component has key >= 100 *)
-             let full = name_of_string nm in
-             let (nm', dig) = (match List.rev full with
-               | last :: rest when int_of_n last >= 100 -> (List.rev rest, Some last)
-               | _ -> (full, None)) in
-             do_step (ENack (nm', dig, n_of_int (int_of_string r))); do_nops ()
-         | ["adv"; d] ->
-             let target = int_of_n (now !st) + int_of_string d in
-             let adv_to t =
-               let fuel = nat_of_int (List.length (timers !st) + 2) in
-               let (s', ob) = advance_to fuel v !st (n_of_int t) in st := s'; mobs := !mobs @ ob in
-             List.iter (fun (txt, t) ->
-               adv_to t;
-               match parse_express (String.split_on_char ' ' txt) with Some e -> do_step e | None -> ()) o.nops;
-             adv_to target
-         | ["attach"; nm; h] -> do_step (EAttach (name_of_string nm, n_of_int (int_of_string h)))
-         | ["detach"; nm] -> do_step (EDetach (name_of_string nm))
-         | ["interest"; nm; life; tok] -> do_step (EInterest (name_of_string nm, opt_n life, opt_tok tok))
-         | ["reply"; i] -> do_step (EReply (nat_of_int (int_of_string i)))
-         | _ -> Printf.printf "BADLINE %s op %s\n" cid o.text);
-        let mstr = List.map string_of_obs !mobs in
+        let step1 (st, ob) e = let (s', ob') = step v st e in (s', ob @ ob') in
+        let nop_ev (txt, _) = parse_express (String.split_on_char ' ' txt) in
+        let with_nops acc = List.fold_left (fun acc n -> match nop_ev n with Some e -> step1 acc e | None -> acc) acc o.nops in
+        let budget = ref 3000 in
+        (* all outcomes of moving the clock of [st] to [target] with the nested Express calls [nops] (time-ordered) *)
+        let rec advance (st, ob) nops target : (state * obs list) list =
+          if !budget <= 0 then [] else
+          let due = next_due st (n_of_int target) in
+          let tn = (match nops with (_, t) :: _ -> Some t | [] -> None) in
+          let tt = (match due with Some (_, t) -> Some (int_of_n t) | None -> None) in
+          let inst = (match tt, tn with
+            | None, None -> None
+            | Some a, None -> Some a
+            | None, Some b -> Some b
+            | Some a, Some b -> Some (min a b)) in
+          match inst with
+          | None -> decr budget; [step1 (st, ob) (EAdvance (n_of_int (target - int_of_n (now st))))]
+          | Some t ->
+              let d = max 0 (t - int_of_n (now st)) in
+              let (st1, ob1) = step1 (st, ob) (EAdvance (n_of_int d)) in
+              let here = List.filter (fun (_, t') -> t' <= t) nops and later = List.filter (fun (_, t') -> t' > t) nops in
+              if here = [] then begin
+                (* no re-entrant Express at this instant: the order of the due timers does not matter; lowest id first *)
+                match due with
+                | Some (tid, _) ->
+                    let acc = step1 (st1, ob1) (EFire tid) in
+                    let acc = step1 acc (ERun tid) in
+                    advance acc nops target
+                | None -> advance (st1, ob1) nops target
+              end else begin
+                (* every interleaving of the timers due now and the nested Express calls (each after its trigger) *)
+                let due_now st = List.filter_map (fun x -> x)
+                  (List.mapi (fun i tm -> match tm.tst with
+                     | TSched when int_of_n tm.tfire <= t -> Some (i, int_of_nat tm.tnode)
+                     | _ -> None) (timers st)) in
+                let rec inter (st, ob) here seen : (state * obs list) list =
+                  if !budget <= 0 then [] else
+                  let ds = due_now st in
+                  let opts_t =
+                    (* timers on the same node are interchangeable: try the lowest id per node *)
+                    let rec uniq acc = function
+                      | [] -> List.rev acc
+                      | (i, n) :: r -> if List.exists (fun (_, n') -> n' = n) acc then uniq acc r else uniq ((i, n) :: acc) r in
+                    uniq [] ds in
+                  let res_t = List.concat_map (fun (tid, _) ->
+                      let acc = step1 (st, []) (EFire (nat_of_int tid)) in
+                      let (st', ob') = step1 acc (ERun (nat_of_int tid)) in
+                      inter (st', ob @ ob') here (cb_pids ob' @ seen)) opts_t in
+                  let res_n = (match here with
+                    | (txt, t') :: rest when List.mem (by_of txt) seen || by_of txt < 0 || ds = [] ->
+                        (match nop_ev (txt, t') with
+                         | Some e -> inter (step1 (st, ob) e) rest seen
+                         | None -> inter (st, ob) rest seen)
+                    | _ -> []) in
+                  if ds = [] && here = [] then advance (st, ob) later target
+                  else res_t @ res_n in
+                inter (st1, ob1) here []
+              end in
+        let outcomes (st : state) : (state * obs list) list =
+          match f with
+          | "express" :: _ -> (match parse_express f with Some e -> [with_nops (step1 (st, []) e)] | None -> [(st, [])])
+          | ["data"; nm; dd] -> [with_nops (step1 (st, []) (EData (name_of_string nm, n_of_int (int_of_string dd))))]
+          | ["nack"; nm; r] ->
+              (* the harness writes the full name; a digest component has key >= 100 *)
+              let full = name_of_string nm in
+              let (nm', dig) = (match List.rev full with
+                | last :: rest when int_of_n last >= 100 -> (List.rev rest, Some last)
+                | _ -> (full, None)) in
+              [with_nops (step1 (st, []) (ENack (nm', dig, n_of_int (int_of_string r))))]
+          | ["adv"; d] -> advance (st, []) o.nops (int_of_n (now st) + int_of_string d)
+          | ["attach"; nm; h] -> [step1 (st, []) (EAttach (name_of_string nm, n_of_int (int_of_string h)))]
+          | ["detach"; nm] -> [step1 (st, []) (EDetach (name_of_string nm))]
+          | ["interest"; nm; life; tok] -> [step1 (st, []) (EInterest (name_of_string nm, opt_n life, opt_tok tok))]
+          | ["reply"; i] -> [step1 (st, []) (EReply (nat_of_int (int_of_string i)))]
+          | _ -> Printf.printf "BADLINE %s op %s\n" cid o.text; [(st, [])] in
         let is_cb l = String.length l > 3 && String.sub l 0 3 = "cb " in
-        let mcbs = List.filter is_cb mstr and mouts = List.filter (fun l -> not (is_cb l)) mstr in
         let is_adv = (List.hd f = "adv") in
         let srt l = if is_adv then List.sort (fun a b -> compare (timeout_key a) (timeout_key b)) l else l in
-        let mcbs = srt mcbs and icbs = srt o.cbs in
-        let mouts = List.sort compare mouts and iouts = List.sort compare o.outs in
-        let report what m i =
-          if not !diverged then begin
-            diverged := true;
-            Printf.printf "DIVERGE %s %d %s model=[%s] impl=[%s] | %s\n" cid idx what m i o.text end in
-        if mcbs <> icbs then report "callbacks" (String.concat "; " mcbs) (String.concat "; " icbs);
-        if mouts <> iouts then report "outputs" (String.concat "; " mouts) (String.concat "; " iouts);
-        let mp = pit_string !st in
-        if mp <> o.pit then report "pit" mp o.pit;
-        let mf = fib_string !st in
-        if mf <> o.fib then report "fib" mf o.fib;
-        if int_of_n (now !st) <> o.at then report "clock" (string_of_int (int_of_n (now !st))) (string_of_int o.at)
+        let icbs = srt o.cbs and iouts = List.sort compare o.outs in
+        (* first difference between a candidate and the implementation, if any *)
+        let differs (st, mobs) : (string * string * string) option =
+          let mstr = List.map string_of_obs mobs in
+          let mcbs = srt (List.filter is_cb mstr) and mouts = List.sort compare (List.filter (fun l -> not (is_cb l)) mstr) in
+          if mcbs <> icbs then Some ("callbacks", String.concat "; " mcbs, String.concat "; " icbs)
+          else if mouts <> iouts then Some ("outputs", String.concat "; " mouts, String.concat "; " iouts)
+          else let mp = pit_string st in
+          if mp <> o.pit then Some ("pit", mp, o.pit)
+          else let mf = fib_string st in
+          if mf <> o.fib then Some ("fib", mf, o.fib)
+          else if int_of_n (now st) <> o.at then Some ("clock", string_of_int (int_of_n (now st)), string_of_int o.at)
+          else None in
+        let cands = List.concat_map outcomes !states in
+        let good = List.filter (fun c -> differs c = None) cands in
+        if good = [] then begin
+          diverged := true;
+          (match cands with
+           | c :: _ -> (match differs c with
+               | Some (what, m, i) ->
+                   Printf.printf "DIVERGE %s %d %s model=[%s] impl=[%s] candidates=%d | %s\n" cid idx what m i (List.length cands) o.text
+               | None -> ())
+           | [] -> Printf.printf "DIVERGE %s %d search-budget model=[] impl=[] candidates=0 | %s\n" cid idx o.text)
+        end else begin
+          (* drop duplicates (same heap contents, timers, counters) and cap the set *)
+          let seen = Hashtbl.create 16 in
+          let uniq = List.filter (fun (st, _) ->
+            let k = state_key st in
+            if Hashtbl.mem seen k then false else (Hashtbl.add seen k (); true)) good in
+          let rec take n = function [] -> [] | x :: r -> if n = 0 then [] else x :: take (n - 1) r in
+          states := List.map fst (take 64 uniq);
+          if List.length !states > 1 then Hashtbl.replace kinds "~nondet" ()
+        end
       end) ops;
     (* ---------------- oracle side: the spec checker on the implementation's observations ---------------- *)
     let sp = ref sinit in
@@ -273,6 +350,7 @@ let () =
       (match spec_final !sp with
        | Some vd -> Printf.printf "ORACLE %s %d %s | end-of-history\n" cid (List.length ops) (string_of_verdict vd)
        | None -> ());
+    Hashtbl.remove kinds "~nondet";
     let nk = Hashtbl.length kinds in
     let body = String.concat "\n" (List.map (fun o -> o.text) ops) in
     Printf.printf "CASE %s %d %d %d %s\n" cid (List.length ops) nk (if nk >= 3 && !any_cb then 1 else 0)
